@@ -6,7 +6,9 @@
    names of the same kind (struct / union / enum), whatever their numbering.                       */
 #include "vstd_c.h"
 #define CAP 24
-#define TAIL 4
+#ifndef TAIL
+#define TAIL 2
+#endif
 int w_decl_names_equal(const char *l, unsigned long ln, const char *r, unsigned long rn);
 static const char *PFX[4] = {"", "__anonymous_struct__", "__anonymous_union__", "__anonymous_enum__"};
 static const unsigned long PLEN[4] = {0, 20, 19, 18};
